@@ -1,5 +1,5 @@
 """C17 - BUILD numbers grow numerically and lexically forever."""
-from campaigns.sweep import Chain
+from campaigns.sweep import Chain, ReleaseJobs
 from campaigns.testcmd import TestCmd
 
 PROPERTY = "C17"
@@ -8,14 +8,16 @@ EXHAUSTIVE = {"quick": False, "thorough": False}
 RULE = ("CHAIN: chains of `bumpver test`, each step starting from the version the previous step announced. Short chains "
         "(3 steps) from start ids of 1..7 digits incl. zero-padded (thorough: all 111,110 strings of 1..5 digits; quick: 4,000 "
         "seeded), long chains (thorough 10,000 steps, quick 800) from starts just below every digit-length expansion and "
-        "below the all-nines maximum, for BUILD and BLD patterns, clock advancing in some chains. TESTCMD adds BUILD parts "
+        "below the all-nines maximum, for BUILD and BLD patterns, clock advancing in some chains. RELEASEJOBS: chains of `update` "
+        "invocations (committing or --no-commit) in which each release is only recorded as a VCS tag (FakeRepo) and the next job "
+        "starts from the pristine checkout again. TESTCMD adds BUILD parts "
         "inside grammar patterns. distinct_nontrivial = distinct (pattern, start, step) triples of short chains + distinct "
         "expansion / maximum events.")
 ASSUMPTIONS = ["lexid successor re-implemented from the lexid README table", "ids of 8+ digits only via chains"]
 COMPONENTS = {"bumpver cli test, v2version, lexid": "real", "clock": "simulated"}
-CAMPAIGNS = [Chain(), TestCmd("C17", quick=5000, thorough=100000, sv_rate=0.05)]
+CAMPAIGNS = [Chain(), ReleaseJobs(), TestCmd("C17", quick=5000, thorough=100000, sv_rate=0.05)]
 
 
 def sanity_gate(tier, total):
-    need = ["build_digit_expansion", "maximum_id_reached"]
+    need = ["build_digit_expansion", "maximum_id_reached", "release_job_done"]
     return ["probe %s never fired" % p for p in need if total["probes"].get(p, 0) == 0]
